@@ -343,6 +343,19 @@ func PBigIdentity(args []string) string {
 	for i := 0; i < len(big.Body); i += 4093 {
 		big.Body[i] = byte(r.U64())
 	}
+	if len(args) > 4 && UnN(args[4]) != 0 {
+		// the big file is one that fiano rebuilds from its sections: two RAW sections of 8 MiB each
+		// (mode 1) or one RAW section of 16 MiB with an extended section header (mode 2)
+		mode := UnN(args[4])
+		body := big.Body
+		big.Body, big.Type, big.BigSecs = nil, 7, true
+		if mode == 1 {
+			h := len(body)/2 + 1 // odd size: padding between the sections
+			big.Secs = []*uefigen.Sec{{Type: 0x19, Body: body[:h]}, {Type: 0x19, Body: body[h:]}}
+		} else {
+			big.Secs = []*uefigen.Sec{{Type: 0x19, Body: body}, {Type: 0x15, Body: []byte{'B', 0, 0, 0}}}
+		}
+	}
 	v.Files = []*uefigen.File{small, big}
 	if trailing {
 		v.Files = append(v.Files, &uefigen.File{GUID: uefigen.GenGUID(r), Type: 0xC6, State: 0xF8, Body: r.Bytes(17)})
